@@ -266,7 +266,7 @@ func (e *Explorer) verdicts(x *Exec, prefix []int) {
 	var vs []Violation
 	for _, p := range x.Out.Panics {
 		if harnessPanic(p) {
-			e.Stats.Internal = append(e.Stats.Internal, fmt.Sprintf("%s %v: harness panic: %s", e.Case, prefix, firstLines(p, 8)))
+			e.Stats.Internal = append(e.Stats.Internal, fmt.Sprintf("%s %v: harness panic: %s", e.Case, prefix, firstLines(p, 24)))
 			continue
 		}
 		vs = append(vs, Violation{Oracle: "panic", Msg: firstLines(p, 12)})
